@@ -421,6 +421,16 @@ def degenerate_stream(ctx, specs):
                     evaluate(ctx, mk_case(spec, "dense", [], {"op": "update_ids", "id_map": [], "axis": ax,
                                                               "strict": strict, "inplace": inplace}),
                              ("fixed", "empty-id-map"))
+    # the same on tables with an axis without IDs (outside the property's domain; model agreement only matters)
+    for spec in ({"obs": [], "samp": ["s1", "s2"], "rows": [], "omd": None, "smd": None, "type": None},
+                 {"obs": ["o1", "o2"], "samp": [], "rows": [[], []], "omd": None, "smd": None, "type": None}):
+        for ax in AX:
+            for m in ([], [["absent", "x"]]):
+                for strict in (True, False):
+                    for inplace in (True, False):
+                        evaluate(ctx, mk_case(spec, "dense", [], {"op": "update_ids", "id_map": m, "axis": ax,
+                                                                  "strict": strict, "inplace": inplace}),
+                                 ("fixed", "empty-axis"), nontrivial=False)
 
 
 def exhaustive_perms(ctx, specs, routes):
